@@ -217,6 +217,11 @@ LogItems(boards, decs, teams, n) ==
 \* requests are processed one at a time in arrival order; the table maps a
 \* seat to the team name seated there, or to Free (the code's None; the empty
 \* string is a team name like any other)
+\* the command line: the session plays the boards of the file from the
+\* restart index (counted from 0) on; an index outside the file is refused
+Restart(boards, r) == SubSeq(boards, r + 1, Len(boards))
+RestartOk(boards, r) == 0 <= r /\ r < Len(boards)
+
 Free == "<<free seat>>"
 ErrVersion(v) == "ERROR: Protocol version is not 18 but " \o ToString(v) \o "."
 ErrSeated(s) == "ERROR: Player " \o SeatName(s) \o " is already seated."
